@@ -119,6 +119,12 @@ def violation_key(t, fail):
         src, to, frag = parts[1], parts[2], parts[3]
         sk, tk = kind_of(kinds, src), kind_of(kinds, to)
         what = ''
+        if clause == 'dangling' and not site['single']:
+            # the page an entry point would have if it were an entry of its own: its @remote declaration was not honoured
+            for late in meta.get('late_eps', ()):
+                for yidx, ea, ep in late:
+                    if to == '/'.join(site['codes'][yidx]['dir'] + [_fmt(site['ffmt'], site['base'], ep)]):
+                        what = ':remote-entry-point-of-repeated-directive'
         if clause == 'fragment':
             ci = code_of(site, src)
             what = ':other-id'
@@ -199,12 +205,29 @@ def vacuity_classes(t, cnt):
     # links that #R macros with an explicit anchor produced: a recorded link to the page of the containing entry whose
     # fragment is either the anchor as written or the AddressAnchor form of the address it names (page per entry), or
     # the anchor of the addressed instruction (single page, where the explicit anchor is dropped)
-    seen = set()
+    seen, seen_from = set(), set()
     for e in t['ev']:
         if e[0] == 'w':
             src = '/'.join(e[1])
+            sc = code_of(site, src) or 0          # pages of no disassembly are expanded by the main one
             for href, frag in e[3]:
                 seen.add((resolve(src, href), frag))
+                seen_from.add((sc, resolve(src, href), frag))
+    # links (from #R macros and operands in disassembly X) to entry points of a remote entry that only the 2nd or 3rd
+    # @remote directive for that entry in X's skool file names; counted whether or not they lead to the entry's page
+    for x, late in enumerate(m.get('late_eps', ())):
+        for yidx, ea, ep in late:
+            c = site['codes'][yidx]
+            frag = _fmt(site['afmt'], site['base'], ep)
+            if site['single']:
+                hit = (x, '/'.join(c['asm1']), frag) in seen_from
+            else:
+                hit = ((x, '/'.join(c['dir'] + [_fmt(site['ffmt'], site['base'], ea)]), frag) in seen_from
+                       or (x, '/'.join(c['dir'] + [_fmt(site['ffmt'], site['base'], ep)]), '') in seen_from)
+            if hit:
+                cnt['link to an entry point named only by a repeated @remote directive' + (', single page' if site['single'] else '')] += 1
+    if any(n > 1 for n in m.get('ndirectives', ())):
+        cnt['site: several @remote directives in one skool file'] += 1
     nd = nondefault_anchor(site)
     for rec in m.get('ranchors', ()):
         to = ranchor_target(site, rec)
@@ -249,6 +272,9 @@ REQUIRED = ['link other-code page -> main entry', 'link main page -> other-code 
             'site: css/js referenced from three depths', 'site: single page', 'site: page per entry',
             'site: two runs with complementary -w', 'site: one run with a -w subset', 'site: non-default AddressAnchor',
             'site: other-code disassemblies',
+            'link to an entry point named only by a repeated @remote directive',
+            'link to an entry point named only by a repeated @remote directive, single page',
+            'site: several @remote directives in one skool file',
             '#R link: explicit numeric anchor, non-default AddressAnchor',
             '#R link: explicit numeric anchor, non-default AddressAnchor, single page',
             '#R link: entry point with the entry address as anchor, non-default AddressAnchor',
@@ -400,7 +426,8 @@ def run(tier):
             rep.violation(key, 'site %s (options %s, -w %s): %s%s' % (t['key'], ' '.join(t['meta']['opts']), ','.join(t['meta']['runs']), what, extra), replay)
     rep.rule = ('random abstract sites (2-8 main entries of every type + 0-2 other-code disassemblies, operands/#R (with and without '
                 'explicit anchors: the entry address as decimal/$hex number from first instructions and entry points, local and @remote; '
-                'other instruction anchors as numbers or in AddressAnchor form; #HTML ids)/#LINK/image/audio macros, [Paths] at different depths, AddressAnchor/CodeFiles formats, LinkOperands, -1 -a -C -D/-H -l/-u -o -O -j -T, '
+                'other instruction anchors as numbers or in AddressAnchor form; #HTML ids; remote entries declared by 1-3 @remote '
+                'directives per entry spread over the skool file with disjoint/overlapping/identical entry-point lists)/#LINK/image/audio macros, [Paths] at different depths, AddressAnchor/CodeFiles formats, LinkOperands, -1 -a -C -D/-H -l/-u -o -O -j -T, '
                 '-w subsets in one or two runs) rendered and run through real skool2html.main; each site is one trace of '
                 'WriteFile/CopyResource events; distinct_nontrivial = number of distinct relative links judged')
     rep.assumptions = ['html.parser tokenisation and URL splitting are trusted projections',
